@@ -50,17 +50,38 @@ Proof.
   apply Nat.max_lub; [apply H; left; reflexivity | apply IH; intros c Hc; apply H; right; exact Hc].
 Qed.
 
-Lemma height_bounded_lem : forall max d t, Gen max d t -> height t <= S (2 * max + 1 - d).
+Lemma height_bounded_lem : forall max A a d t,
+    Gen max A a d t -> a <= A -> height t <= a + 1 + (A + 1) * (2 * max + 1 - d).
 Proof.
-  fix IH 4. intros max d t H. destruct H as [d | d t H | d k cs Hk Hd Hc | d cs Hd Hc].
-  - cbn. lia.
-  - apply IH. exact H.
-  - cbn [height]. apply le_n_S.
-    apply fold_max_le. intros c Hin.
-    pose proof (IH max (d + k) c (Hc c Hin)) as Hb. lia.
-  - cbn [height]. apply le_n_S.
-    apply fold_max_le. intros c Hin. rewrite (Hc c Hin). cbn. lia.
+  fix IH 6. intros max A a d t H Ha.
+  destruct H as [a d | a d t H | a d k cs Hk Hd Hc | a d cs Hc | a d cs Hd Hc].
+  - cbn [height]. apply Nat.le_0_l.
+  - apply IH; assumption.
+  - cbn [height].
+    assert (Hb : fold_right (fun c m => Nat.max (height c) m) 0 cs <= A + 1 + (A + 1) * (2 * max + 1 - (d + k))).
+    { apply fold_max_le. intros c Hin. apply (IH max A A (d + k) c (Hc c Hin)). lia. }
+    assert (E : 2 * max + 1 - d = S (2 * max + 1 - (d + 1))) by lia.
+    assert (Hm : (A + 1) * (2 * max + 1 - (d + k)) <= (A + 1) * (2 * max + 1 - (d + 1))).
+    { apply Nat.mul_le_mono_l. lia. }
+    rewrite E. rewrite Nat.mul_succ_r. lia.
+  - cbn [height].
+    assert (Hb : fold_right (fun c m => Nat.max (height c) m) 0 cs <= a + 1 + (A + 1) * (2 * max + 1 - d)).
+    { apply fold_max_le. intros c Hin. apply (IH max A a d c (Hc c Hin)). lia. }
+    lia.
+  - cbn [height].
+    assert (Hb : fold_right (fun c m => Nat.max (height c) m) 0 cs <= 0).
+    { apply fold_max_le. intros c Hin. rewrite (Hc c Hin). cbn. lia. }
+    lia.
 Qed.
 
-Lemma nesting_bounded_lem : forall max t, Gen max 1 t -> height t <= 2 * max + 1.
-Proof. intros max t H. pose proof (height_bounded_lem max 1 t H). lia. Qed.
+Lemma nesting_bounded_lem : forall max A t, Gen max A A 1 t -> height t <= (A + 1) * (2 * max + 1).
+Proof.
+  intros max A t H. pose proof (height_bounded_lem max A A 1 t H (le_n A)) as Hb.
+  replace (2 * max + 1 - 1) with (2 * max) in Hb by lia.
+  replace ((A + 1) * (2 * max + 1)) with ((A + 1) * (2 * max) + (A + 1)) by (rewrite Nat.mul_add_distr_l; lia).
+  lia.
+Qed.
+
+(* without arrays the bound is the plain 2 * max_depth + 1 *)
+Lemma nesting_bounded_no_arrays_lem : forall max t, Gen max 0 0 1 t -> height t <= 2 * max + 1.
+Proof. intros max t H. pose proof (nesting_bounded_lem max 0 t H). lia. Qed.
